@@ -430,6 +430,40 @@ func c16Resume(c *Ctx) {
 		n++
 		// levels feeding the bound
 		levels := map[int64]bool{}
+		// addLevels records the level(s) a listing argument denotes: a constant, or
+		// the range of a counted loop variable (`for level := a; level < b; level++`)
+		addLevels := func(lv ssa.Value) {
+			if k, ok := constInt(lv); ok {
+				levels[k] = true
+				return
+			}
+			for _, l := range countedLoops(fn) {
+				if ssa.Value(l.Phi) != lv || l.Cond == nil {
+					continue
+				}
+				init, okI := constInt(l.Init)
+				bo, okB := l.Cond.Cond.(*ssa.BinOp)
+				if !okI || !okB || bo.X != ssa.Value(l.Phi) {
+					continue
+				}
+				lim, okL := constInt(bo.Y)
+				if !okL {
+					continue
+				}
+				switch bo.Op {
+				case token.LSS:
+					lim--
+				case token.LEQ:
+				default:
+					continue
+				}
+				for k := init; k <= lim && k < 64; k++ {
+					levels[k] = true
+				}
+				return
+			}
+			levels[-1] = true // a range this rule cannot bound
+		}
 		var walk func(v ssa.Value, d int)
 		seen := map[ssa.Value]bool{}
 		walk = func(v ssa.Value, d int) {
@@ -455,27 +489,15 @@ func c16Resume(c *Ctx) {
 						walk(x.Call.Value, d+1)
 					}
 					if nm == "(*ls.Replica).MaxLTXFileInfo" {
-						if lv, ok := constInt(x.Call.Args[2]); ok {
-							levels[lv] = true
-						} else {
-							levels[-1] = true // loop over levels
-						}
+						addLevels(x.Call.Args[2])
 					}
 				case *ssa.Extract:
 					if call, ok := x.Tuple.(*ssa.Call); ok {
 						if isLTXFiles(calleeName(call)) {
-							if lv, ok := constInt(namedArg(call, "level")); ok {
-								levels[lv] = true
-							} else {
-								levels[-1] = true
-							}
+							addLevels(namedArg(call, "level"))
 						}
 						if calleeName(call) == "(*ls.Replica).MaxLTXFileInfo" {
-							if lv, ok := constInt(call.Call.Args[2]); ok {
-								levels[lv] = true
-							} else {
-								levels[-1] = true
-							}
+							addLevels(call.Call.Args[2])
 						}
 					}
 				case *ssa.Phi:
